@@ -60,6 +60,15 @@ type c17ref struct {
 	lastStz string
 	shared  *UnAckedStz // one element object that the caller fills again for every "pushreuse"
 	maxId   int         // greatest sequence number seen on any entry so far (entries that left the queue included)
+	// results of earlier pop-n / peek-n calls that the caller still holds, with what they held when returned:
+	// they belong to the caller and must read the same whatever the queue is asked later
+	kept []c17kept
+}
+
+type c17kept struct {
+	op   string
+	res  []Queueable
+	want []string
 }
 
 func c17payloads(q []Queueable) ([]string, bool) {
@@ -198,6 +207,12 @@ func c17apply(q *UnAckQueue, ref *c17ref, o c17op) (string, string) {
 		case k == n:
 			class = "exact-length"
 		}
+		if len(got) > 0 {
+			ref.kept = append(ref.kept, c17kept{op: fmt.Sprintf("%s(%d)", o.kind, k), res: got, want: append([]string{}, gp...)})
+			if len(ref.kept) > 3 {
+				ref.kept = ref.kept[len(ref.kept)-3:]
+			}
+		}
 		if strings.Join(gp, "|") != strings.Join(ref.items[:want], "|") {
 			return o.kind + "-wrong-result|n=" + class, fmt.Sprintf("%s(%d) on %d items returned %q, reference %q", o.kind, k, n, gp, ref.items[:want])
 		}
@@ -205,6 +220,13 @@ func c17apply(q *UnAckQueue, ref *c17ref, o c17op) (string, string) {
 			ref.items = ref.items[want:]
 		} else if c17snapshot(q) != before {
 			return "peekn-modified-queue", fmt.Sprintf("queue %s -> %s", before, c17snapshot(q))
+		}
+	}
+	// what earlier calls returned still reads as it did
+	for _, kp := range ref.kept {
+		now, ok := c17payloads(kp.res)
+		if !ok || strings.Join(now, "|") != strings.Join(kp.want, "|") {
+			return "earlier-result-changed", fmt.Sprintf("the slice returned by an earlier %s read %q when it was returned and reads %q after %s", kp.op, kp.want, now, o)
 		}
 	}
 	// contents agree with the reference, ids strictly increasing
@@ -226,7 +248,9 @@ func c17apply(q *UnAckQueue, ref *c17ref, o c17op) (string, string) {
 	}
 	// numbers increase in insertion order over the whole history: a new entry is numbered above every entry
 	// inserted before it, whether that one is still queued or not
-	if strings.HasPrefix(o.kind, "push") && len(q.Uslice) > 0 && len(q.Uslice) == n+1 {
+	// (for a queue built as a literal the queue cannot know what was numbered before it existed: there only the
+	// order among queued entries, checked above, is asserted)
+	if c17start == 0 && strings.HasPrefix(o.kind, "push") && len(q.Uslice) > 0 && len(q.Uslice) == n+1 {
 		if id := q.Uslice[len(q.Uslice)-1].Id; id <= ref.maxId {
 			return "id-not-above-earlier-entries", fmt.Sprintf("after %s the new entry is numbered %d, but an earlier entry was numbered %d (queue %s)", o, id, ref.maxId, c17snapshot(q))
 		}
@@ -272,9 +296,19 @@ func c17canon(q *UnAckQueue, ref *c17ref) string {
 	return sb.String()
 }
 
+// c17start, when > 0, is the sequence number of one entry that the queue holds at the start (a queue built as a
+// literal from its exported fields, as an application restoring saved state would): histories are also explored
+// from there, across the 2^31 and 2^32 boundaries.
+var c17start int
+
 func c17replay(path []c17op) (*UnAckQueue, *c17ref, string, string) {
 	q := NewUnAckQueue()
 	ref := &c17ref{}
+	if c17start > 0 {
+		q = &UnAckQueue{Uslice: []*UnAckedStz{{Id: c17start, Stz: "<s n='start'/>"}}}
+		ref.items = []string{"<s n='start'/>"}
+		ref.maxId = c17start
+	}
 	for _, o := range path {
 		if k, d := c17apply(q, ref, o); k != "" {
 			return q, ref, k, d
@@ -353,6 +387,34 @@ func TestVerifC17(t *testing.T) {
 			frontier = next
 		}
 	}})
+	for _, start := range []int{1<<31 - 3, 1<<32 - 3} {
+		start := start
+		for fi := range ops {
+			first := ops[fi]
+			scs = append(scs, hx.Scenario{Name: fmt.Sprintf("from-id=%d/first=%s", start, first.String()), Run: func(c *hx.Ctx) {
+				c17start = start
+				defer func() { c17start = 0 }()
+				var rec func(path []c17op)
+				rec = func(path []c17op) {
+					q, ref, k, d := c17replay(path)
+					c.Step(len(path))
+					c.Eval(fmt.Sprintf("from %d: %s=>%s%s", start, c17path(path), c17snapshot(q), k))
+					c.State(fmt.Sprintf("%d/", start) + c17canon(q, ref))
+					if k != "" {
+						c.Fail("C17|"+k+"|from-large-id", c17path(path), "%s (queue starting with one entry numbered %d, history: %s)", d, start, c17path(path))
+						return
+					}
+					if len(path) == depthAll-1 {
+						return
+					}
+					for _, o := range ops {
+						rec(append(append([]c17op{}, path...), o))
+					}
+				}
+				rec([]c17op{first})
+			}})
+		}
+	}
 	if rc := hx.Main("C17", scs); rc == 2 {
 		t.Fatal("internal error")
 	}
